@@ -80,6 +80,9 @@ func copyViaSiblingTemp(in *os.File, dst string) (bool, error) {
 	if err != nil {
 		return false, err
 	}
+	if err = verifStep("copy.stage_create"); err != nil {
+		return false, err
+	}
 	staging, err := os.CreateTemp(filepath.Dir(dst), ".yq-inplace-*")
 	if err != nil {
 		return false, nil
@@ -90,11 +93,23 @@ func copyViaSiblingTemp(in *os.File, dst string) (bool, error) {
 			tryRemoveTempFile(staging.Name())
 		}
 	}()
+	if err = verifCopyStep(staging, in); err != nil {
+		safelyCloseFile(staging)
+		return false, err
+	}
 	if _, err = io.Copy(staging, in); err != nil {
 		safelyCloseFile(staging)
 		return false, err
 	}
+	if err = verifStep("copy.stage_sync"); err != nil {
+		safelyCloseFile(staging)
+		return false, err
+	}
 	if err = staging.Sync(); err != nil {
+		safelyCloseFile(staging)
+		return false, err
+	}
+	if err = verifStep("copy.stage_chmod"); err != nil {
 		safelyCloseFile(staging)
 		return false, err
 	}
@@ -109,6 +124,7 @@ func copyViaSiblingTemp(in *os.File, dst string) (bool, error) {
 	if err = staging.Close(); err != nil {
 		return false, err
 	}
+	_ = verifStep("copy.stage_rename")
 	if err = os.Rename(staging.Name(), dst); err != nil {
 		// cannot replace dst this way: rewind and let the caller write dst directly
 		_, seekErr := in.Seek(0, io.SeekStart)
